@@ -7,6 +7,13 @@ import TypstyleModel.Proofs.CarriesKnot
 harness produced from the implementation, and reports where they differ.  One `R …` line per case. -/
 open Pretty Typstyle
 
+/-- Why a tree is outside the covered fragment: the kind of an innermost node that is not in it. -/
+partial def fragBlocker (n : ANode) : String :=
+  if inFrag n then "-" else
+  match n.children.find? (fun c => !inFrag c) with
+  | some c => fragBlocker c
+  | none => n.kind.name
+
 def hexVal (c : Char) : Nat :=
   if '0' ≤ c ∧ c ≤ '9' then c.toNat - '0'.toNat
   else if 'a' ≤ c ∧ c ≤ 'f' then c.toNat - 'a'.toNat + 10 else 0
@@ -241,7 +248,7 @@ def evalCase (s : S) (d : Doc) : IO Unit := do
     if pt.kind == .markup && inFrag pt then
       let all := tokensCertified t tw && commentsCertified t tw && verbatimCertified t tw && proseCertified t tw && literalsCertified t tw
       fields := (if all then "rm=in" else "rm=viol") :: fields
-    else fields := "rm=out" :: fields
+    else fields := s!"rmwhy={fragBlocker pt}" :: "rm=out" :: fields
     if let some c := s.cnt then
       fields := (if c == calls then "count=eq" else s!"count=diff:{calls}:{c}") :: fields
     let me := m.erase
